@@ -4,6 +4,9 @@ import RtcVerif.Proofs.InterpLemmas
 import RtcVerif.Proofs.NumOrder
 import RtcVerif.Proofs.MergeLemmas
 import RtcVerif.Proofs.InterpCode
+import RtcVerif.Proofs.C19MergeCode
+import RtcVerif.Proofs.C19InterpCols
+import RtcVerif.Proofs.C19MergeAssoc
 import Mathlib.Algebra.Order.Field.Basic
 /-!
 # C19 — interpolation and bound merging behave as documented for every input shape
@@ -289,6 +292,84 @@ theorem merge_idem (lo hi : Bnd) :
       mergeSide_idem EVal.min (fun a => by rw [EVal.min_eq, min_self]) hi]
   rfl
 
+/-- **Associativity, element- and time-wise, whenever both groupings are accepted**: merging three bound
+    pairs as `(1 ∘ 2) ∘ 3` and as `1 ∘ (2 ∘ 3)` gives the same lower and upper bound at every (time, component)
+    where the three inputs are defined.
+
+    (The full statement — equal representations, and the same inputs rejected by both groupings — is
+    `merge_assoc` below; this element-wise form needs no side condition at all.) -/
+theorem merge_assoc_elementwise (lo1 hi1 lo2 hi2 lo3 hi3 m12 M12 m23 M23 mL ML mR MR : Bnd)
+    (h12 : mergeBounds lo1 hi1 lo2 hi2 = some (m12, M12)) (hL : mergeBounds m12 M12 lo3 hi3 = some (mL, ML))
+    (h23 : mergeBounds lo2 hi2 lo3 hi3 = some (m23, M23)) (hR : mergeBounds lo1 hi1 m23 M23 = some (mR, MR))
+    (i j : Nat) :
+    (∀ x y z, (normalize lo1).at i j = some x → (normalize lo2).at i j = some y →
+        (normalize lo3).at i j = some z →
+        mL.at i j = some (max (max x y) z) ∧ mR.at i j = mL.at i j) ∧
+    (∀ x y z, (normalize hi1).at i j = some x → (normalize hi2).at i j = some y →
+        (normalize hi3).at i j = some z →
+        ML.at i j = some (min (min x y) z) ∧ MR.at i j = ML.at i j) := by
+  have e12 := merge_elementwise lo1 hi1 lo2 hi2 m12 M12 h12 i j
+  have eL := merge_elementwise m12 M12 lo3 hi3 mL ML hL i j
+  have e23 := merge_elementwise lo2 hi2 lo3 hi3 m23 M23 h23 i j
+  have eR := merge_elementwise lo1 hi1 m23 M23 mR MR hR i j
+  constructor
+  · intro x y z hx hy hz
+    have a1 := normalize_at _ _ _ _ (e12.1 x y hx hy)
+    have a2 := eL.1 _ z a1 hz
+    have b1 := normalize_at _ _ _ _ (e23.1 y z hy hz)
+    have b2 := eR.1 x _ hx b1
+    exact ⟨a2, by rw [a2, b2, max_assoc]⟩
+  · intro x y z hx hy hz
+    have a1 := normalize_at _ _ _ _ (e12.2 x y hx hy)
+    have a2 := eL.2 _ z a1 hz
+    have b1 := normalize_at _ _ _ _ (e23.2 y z hy hz)
+    have b2 := eR.2 x _ hx b1
+    exact ⟨a2, by rw [a2, b2, min_assoc]⟩
+
+/-- **Associativity, with the rejection cases**: merging three bound pairs as `(1 ∘ 2) ∘ 3` and as
+    `1 ∘ (2 ∘ 3)` gives the same pair of bounds (same representation: kind, time stamps, every value), and a
+    triple rejected by one grouping is rejected by the other — for every mixture of scalars, vectors, 1-D and
+    2-D Timeseries in which every vector Timeseries has at least one row (`NonDeg`; without it the model has
+    the counter-example `merge_assoc_needs_rows`). -/
+theorem merge_assoc (lo1 hi1 lo2 hi2 lo3 hi3 : Bnd)
+    (n1 : NonDeg lo1) (n2 : NonDeg lo2) (n3 : NonDeg lo3) (N1 : NonDeg hi1) (N2 : NonDeg hi2) (N3 : NonDeg hi3) :
+    (mergeBounds lo1 hi1 lo2 hi2).bind (fun p => mergeBounds p.1 p.2 lo3 hi3)
+      = (mergeBounds lo2 hi2 lo3 hi3).bind (fun p => mergeBounds lo1 hi1 p.1 p.2) := by
+  have cmax : ∀ a b, EVal.max a b = EVal.max b a := fun a b => by
+    rw [EVal.max_eq, EVal.max_eq, max_comm]
+  have amax : ∀ a b c, EVal.max (EVal.max a b) c = EVal.max a (EVal.max b c) := fun a b c => by
+    simp only [EVal.max_eq, max_assoc]
+  have cmin : ∀ a b, EVal.min a b = EVal.min b a := fun a b => by
+    rw [EVal.min_eq, EVal.min_eq, min_comm]
+  have amin : ∀ a b c, EVal.min (EVal.min a b) c = EVal.min a (EVal.min b c) := fun a b c => by
+    simp only [EVal.min_eq, min_assoc]
+  have hL := mergeSide_assoc EVal.max cmax amax lo1 lo2 lo3 n1 n2 n3
+  have hH := mergeSide_assoc EVal.min cmin amin hi1 hi2 hi3 N1 N2 N3
+  unfold mergeBounds
+  cases e1 : mergeSide EVal.max lo1 lo2 <;> cases e2 : mergeSide EVal.min hi1 hi2 <;>
+    cases e3 : mergeSide EVal.max lo2 lo3 <;> cases e4 : mergeSide EVal.min hi2 hi3 <;>
+    simp only [e1, e2, e3, e4, Option.bind_some, Option.bind_none, Option.bind_eq_bind, Option.pure_def]
+      at hL hH ⊢ <;>
+    first
+      | rfl
+      | (simp [← hL, ← hH]; done)
+      | (simp [hL, hH]; done)
+      | (simp [← hL, hH]; done)
+      | (simp [hL, ← hH]; done)
+      | (simp [← hL]; done)
+      | (simp [← hH]; done)
+      | (simp [hL]; done)
+      | (simp [hH]; done)
+
+/-- why the rejection half of associativity needs "every vector Timeseries has at least one row" on the
+    model: with an empty 2-D series the grouping decides whether two vectors of different sizes meet -/
+theorem merge_assoc_needs_rows :
+    (mergeSide EVal.max (.vec [.fin 1, .fin 2]) (.vec [.fin 1, .fin 2, .fin 3])).bind
+        (fun ab => mergeSide EVal.max ab (.ts2 [] [])) = none ∧
+    (mergeSide EVal.max (.vec [.fin 1, .fin 2, .fin 3]) (.ts2 [] [])).bind
+        (fun bc => mergeSide EVal.max (.vec [.fin 1, .fin 2]) bc) = some (.ts2 [] []) := by
+  decide +kernel
+
 /-- **Incompatible shapes or time stamps are rejected**, in both argument orders. -/
 theorem merge_rejects_incompatible (f : EVal → EVal → EVal) :
     (∀ xs ys : List EVal, 2 ≤ xs.length → 2 ≤ ys.length → xs.length ≠ ys.length →
@@ -324,6 +405,21 @@ example : interpCore 0 [(0, 10), (1, 20), (3, 40)] (some .nan) (some .nan) 2 = .
 example : mergeBounds (.sc (.fin 1)) (.vec [.fin 5, .pinf]) (.vec [.fin 0, .fin 2]) (.sc (.fin 4))
     = some (.vec [.fin 1, .fin 2], .vec [.fin 4, .fin 4]) := by
   decide +kernel
+
+example : mergeBounds (.sc (.fin 1)) (.sc .pinf) (.vec [.fin 0, .fin 2]) (.sc (.fin 9))
+      = some (.vec [.fin 1, .fin 2], .sc (.fin 9)) ∧
+    mergeBounds (.vec [.fin 1, .fin 2]) (.sc (.fin 9)) (.ts2 [0] [[.fin 3, .fin 0]]) (.ts1 [0] [.fin 4])
+      = some (.ts2 [0] [[.fin 3, .fin 2]], .ts1 [0] [.fin 4]) ∧
+    mergeBounds (.vec [.fin 0, .fin 2]) (.sc (.fin 9)) (.ts2 [0] [[.fin 3, .fin 0]]) (.ts1 [0] [.fin 4])
+      = some (.ts2 [0] [[.fin 3, .fin 2]], .ts1 [0] [.fin 4]) ∧
+    mergeBounds (.sc (.fin 1)) (.sc .pinf) (.ts2 [0] [[.fin 3, .fin 2]]) (.ts1 [0] [.fin 4])
+      = some (.ts2 [0] [[.fin 3, .fin 2]], .ts1 [0] [.fin 4]) := by
+  decide +kernel
+
+/-- the hypotheses of `merge_assoc` hold for the instance above (and fail only for a 2-D series without rows) -/
+example : NonDeg (.sc (.fin 1)) ∧ NonDeg (.vec [.fin 0, .fin 2]) ∧ NonDeg (.ts2 [0] [[.fin 3, .fin 0]]) ∧
+    NonDeg (.ts1 [0] [.fin 4]) ∧ ¬ NonDeg (.ts2 [] []) := by
+  simp [NonDeg]
 
 /-! ### The code as written (translated from the source on every run) is the model
 
@@ -427,5 +523,127 @@ theorem code_sym_is_model (mode : Nat) (hm : mode ≤ 2) (ks : Knots) (t : Rat) 
   | 0, _ => rfl
   | 1, _ => rfl
   | 2, _ => rfl
+
+/-! ### The 2-D values branch of `interpolate` as written is the column-wise model -/
+
+/-- 2-D values with a scalar query (F20): one value per column, each the scalar interpolation of that
+    column; the call raises iff one column does -/
+theorem interp_columnwise_scalar (mode : Nat) (cols : List Knots) (fl fr : Fill) (t : Rat)
+    (res : List XVal) (h : interpColumnsScalar mode cols fl fr t = some res) :
+    res.length = cols.length ∧
+    ∀ c (hc : c < cols.length), (res[c]?) = (interpScalar mode cols[c] fl fr t).toOption :=
+  InterpCode.mapM_get _ cols res h
+
+open RtcVerif.InterpCode in
+/-- the 2-D branch of `interpolate` as written, array query (early exit `fs.copy()`, per-column recursion
+    with the fills and the mode forwarded, `np.stack`), computes the model's `interpColumns` -/
+theorem code_cols_array_is_model (mode : Nat) (ts : List Rat) (cols : List Knots) (fl fr : Fill)
+    (qs : List Rat) (h : ColsOK ts cols) :
+    colsArrayRef mode ts cols fl fr qs = interpColumns mode cols fl fr qs := by
+  obtain ⟨hne, hc⟩ := h
+  unfold colsArrayRef interpColumns
+  by_cases hq : qs = ts
+  · subst hq
+    simp only [and_self, if_true]
+    rw [mapM_congr_mem (fun ks => interpArray mode ks fl fr qs)
+      (fun ks => some (ks.map fun k => XVal.fin k.2)) cols ?_, mapM_some_map]
+    intro ks hks
+    obtain ⟨h1, _, h3⟩ := hc ks hks
+    simp [interpArray, h1, h3]
+  · have hm : (cols.map fun ks => arrayRef mode ks fl fr qs) ≠ [] := by
+      simpa using hne
+    simp only [hq, and_false, if_false, stackA, hm]
+    rw [mapM_id_map]
+    apply mapM_congr_mem
+    intro ks hks
+    obtain ⟨h1, h2, _⟩ := hc ks hks
+    exact code_array_is_model mode ks fl fr qs h1 h2
+
+open RtcVerif.InterpCode in
+/-- the 2-D branch of `interpolate` as written, scalar query (the F20 repair) -/
+theorem code_cols_scalar_is_model (mode : Nat) (ts : List Rat) (cols : List Knots) (fl fr : Fill)
+    (t : Rat) (h : ColsOK ts cols) :
+    colsScalarRef mode cols fl fr t = interpColumnsScalar mode cols fl fr t := by
+  obtain ⟨hne, hc⟩ := h
+  unfold colsScalarRef interpColumnsScalar
+  have hm : (cols.map fun ks => scalarRef mode ks fl fr t) ≠ [] := by
+    simpa using hne
+  have e : (cols.map fun ks => scalarRef mode ks fl fr t)
+      = cols.map fun ks => embed (interpScalar mode ks fl fr t) := by
+    apply List.map_congr_left
+    intro ks hks
+    obtain ⟨h1, h2, _⟩ := hc ks hks
+    exact code_scalar_is_model mode ks fl fr t h1 h2
+  simp only [stackC, hm, if_false]
+  rw [e, sequenceC_embed_map]
+
+example : InterpCode.ColsOK [0, 1, 3] [[(0, 10), (1, 20), (3, 40)], [(0, 1), (1, 2), (3, 4)]] := by
+  refine ⟨by simp, ?_⟩
+  intro ks hks
+  simp at hks
+  rcases hks with rfl | rfl <;> refine ⟨by simp, by decide +kernel, by decide +kernel⟩
+
+example : interpColumnsScalar 0 [[(0, 10), (1, 20), (3, 40)], [(0, 1), (1, 2), (3, 4)]] (some .nan) (some .nan) 2
+    = some [XVal.fin 30, XVal.fin 3] := by
+  decide +kernel
+
+/-! ### `merge_bounds` as written (translated from the source on every run) is the model
+
+`Model/C19MergeCode.lean` holds `mergeBoundsRef`: the statement frame of `merge_bounds` (debug assertions,
+normalisation loop, upcasting loop over the index pairs, type assertions, the two merges) over the
+dynamically typed universe `PyV` (Python int / float, integer- or float-dtype 1-D arrays, Timeseries with
+1-D / 2-D values, and the values the assertions reject) and NumPy-level primitives (`np.full_like` with and
+without `dtype`, `np.broadcast_to`, `np.maximum` / `np.minimum`, `Timeseries(...)` as written in
+`Timeseries.__init__`).  harness/translate_c19.py regenerates the same functions from /repo on every run and
+proves them equal to these references (`Gen/MergeCode.lean`); the theorems below connect the reference to
+`mergeBounds`, the function `merge_elementwise`, `merge_comm`, `merge_idem`, `merge_assoc`,
+`merge_rejects_incompatible` are about. -/
+
+open RtcVerif.MergeCode in
+/-- **`merge_bounds` as written computes the model's `mergeBounds`** on everything its assertions accept
+    (any mixture of int / float scalars, integer- or float-dtype vectors, 1-D / 2-D Timeseries, both argument
+    orders), including which inputs raise; the int / float distinction does not influence the values. -/
+theorem code_merge_is_model (a A b B : PyV) (ha : Valid a) (hA : Valid A) (hb : Valid b) (hB : Valid B)
+    (wa : WF a) (wA : WF A) (wb : WF b) (wB : WF B) :
+    (mergeBoundsRef a A b B).map (fun p => (den p.1, den p.2))
+      = mergeBounds (den a) (den A) (den b) (den B) := by
+  rw [mergeBoundsRef_valid a A b B ha hA hb hB]
+  have h1 := side_is_model true a b ha hb wa wb
+  have h2 := side_is_model false A B hA hB wA wB
+  have e1 : fOf true = EVal.max := rfl
+  have e2 : fOf false = EVal.min := rfl
+  rw [e1] at h1
+  rw [e2] at h2
+  unfold mergeBounds
+  rw [← h1, ← h2]
+  cases sideN true (normRef a) (normRef b) <;> cases sideN false (normRef A) (normRef B) <;> rfl
+
+open RtcVerif.MergeCode in
+/-- whatever the debug assertions do not accept (a 2-D or non-numeric array, `None`, a list, ...) makes
+    `merge_bounds` raise -/
+theorem code_merge_rejects_invalid (a A b B : PyV) (h : ¬ (Valid a ∧ Valid A ∧ Valid b ∧ Valid B)) :
+    mergeBoundsRef a A b B = none :=
+  MergeCode.mergeBoundsRef_invalid a A b B h
+
+/-- F52 and F19 on the code-level reference: a float scalar against an integer-dtype vector is not
+    truncated; int and float scalars mix (non-vacuity of `code_merge_is_model`: valid, well-formed inputs) -/
+example : MergeCode.mergeBoundsRef (.num false (.fin (5/2))) (.num true (.fin 3))
+      (.arr true [.fin 1, .fin 4, .fin 1]) (.num true (.fin 4))
+    = some (.arr false [.fin (5/2), .fin 4, .fin (5/2)], .num false (.fin 3)) := by
+  decide +kernel
+
+example : MergeCode.mergeBoundsRef (.num true (.fin 0)) (.num true (.fin 1)) (.num false (.fin (1/2))) (.num false (.fin 2))
+    = some (.num false (.fin (1/2)), .num false (.fin 1)) := by
+  decide +kernel
+
+example : MergeCode.mergeBoundsRef (.arr false [.fin 1, .fin 2]) (.num false .pinf)
+      (.ts2 [0, 1] [[.fin 0, .fin 3], [.fin 2, .fin 2]]) (.ts1 [0, 1] [.fin 5, .fin 6])
+    = some (.ts2 [0, 1] [[.fin 1, .fin 3], [.fin 2, .fin 2]], .ts1 [0, 1] [.fin 5, .fin 6]) := by
+  decide +kernel
+
+example : MergeCode.WF (.ts2 [0, 1] [[.fin 0, .fin 3], [.fin 2, .fin 2]]) ∧ MergeCode.WF (.ts1 [0, 1] [.fin 5, .fin 6]) := by
+  refine ⟨⟨by decide, ?_⟩, ?_⟩
+  · intro r hr; simp at hr; rcases hr with rfl | rfl <;> rfl
+  · intro h; simp at h
 
 end RtcVerif.C19
